@@ -1,13 +1,13 @@
 #!/bin/bash
 # store_seeded.sh <PROP> <n> "<what>" "<needs>"   — copies /tmp/wt-<PROP>/SEEDED into /verif/seeded/<PROP>-<n>
 set -e
-P=$1; N=$2; WHAT=$3; NEEDS=$4
+P=$1; N=$2; WHAT=$3; NEEDS=$4; WT=${5:-$P}
 d=/verif/seeded/$P-$N; mkdir -p $d
-cp /tmp/wt-$P/SEEDED/patch.diff $d/; cp /tmp/wt-$P/SEEDED/seeded_*.rs $d/ 2>/dev/null || true; cp /tmp/wt-$P/SEEDED/NOTES.md $d/ 2>/dev/null || true
+cp /tmp/wt-$WT/SEEDED/patch.diff $d/; cp /tmp/wt-$WT/SEEDED/seeded_*.rs $d/ 2>/dev/null || true; cp /tmp/wt-$WT/SEEDED/NOTES.md $d/ 2>/dev/null || true
 python3 - "$P" "$WHAT" "$NEEDS" "$d" <<'PY'
 import json,sys
 p,what,needs,d=sys.argv[1:5]
 json.dump({"property":p,"origin":"independent sub-agent (saw only the property text and a scratch worktree)","what":what,"needs":needs,"detected_by":[p],"ran":"see NOTES.md (agent) and DESIGN §9 (confirmation by confirm_seeded.sh and mutants.sh)"},open(d+'/meta.json','w'),indent=1)
 PY
-git -C /repo worktree remove --force /tmp/wt-$P
+git -C /repo worktree remove --force /tmp/wt-$WT
 echo stored $d
